@@ -417,8 +417,8 @@ func init() {
 			}
 		}
 		if td := cf.funcDecl("Tars2endpoint"); td != nil {
-			src := exprStr(cf.fset, td.Body)
-			if !strings.Contains(src, `proto := "tcp"`) || !strings.Contains(src, "if end.Istcp == UDP {\n\t\tproto = \"udp\"\n\t}") {
+			src := strings.Join(strings.Fields(exprStr(cf.fset, td.Body)), " ")
+			if !strings.Contains(src, `proto := "tcp"`) || !strings.Contains(src, `if end.Istcp == UDP { proto = "udp" }`) {
 				anchorLost("convert.go: Tars2endpoint: `proto := \"tcp\"; if end.Istcp == UDP { proto = \"udp\" }` not found")
 			}
 		}
